@@ -254,7 +254,7 @@ pub fn check(rep: &Report) {
         rep.distinct(crate::rng::fnv64(sc.src.as_bytes()));
         rep.count("scenarios", 1);
         for k in &sc.kinds { rep.count(&format!("shape={}", k), 1); }
-        if i < 3 { rep.sample(json!({"resource_scenario_source": sc.src})); }
+        if rep.want_sample() { rep.sample(json!({"resource_scenario_source": sc.src})); }
         for cfg in &sched_variants(&mut rng, n_sched) {
             let run = run_one(&bc, &b, cfg, false);
             rep.eval(1);
